@@ -99,6 +99,9 @@ func VerifyFunction(ld *Loaded, cs *ContractSet, fn *ssa.Function, ct *Contract)
 	ex.contract = ct
 	ex.props = ct.Props
 	ex.checkPanics = ct.Safety && !ct.NoPanicCheck
+	if len(ct.SafetyProps) > 0 && currentProp != "" && !hasProp(ct.SafetyProps, currentProp) {
+		ex.checkPanics = false
+	}
 	if len(fn.Blocks) == 0 {
 		res.Err = "function has no body: " + key
 		return res
@@ -163,7 +166,7 @@ func VerifyFunction(ld *Loaded, cs *ContractSet, fn *ssa.Function, ct *Contract)
 	for _, r := range ct.Requires {
 		ex.sc.Assert(ex.evalBool(r, env0))
 	}
-	if ct.Sweep && fn.Signature.Recv() != nil && len(fn.Params) > 0 {
+	if (ct.Sweep || len(ct.SafetyProps) > 0) && fn.Signature.Recv() != nil && len(fn.Params) > 0 {
 		// sweeps take the method as called on an existing object; nil receivers
 		// are checked where a caller under verification inlines the method
 		if _, isPtr := fn.Params[0].Type().Underlying().(*types.Pointer); isPtr {
@@ -175,6 +178,7 @@ func VerifyFunction(ld *Loaded, cs *ContractSet, fn *ssa.Function, ct *Contract)
 	}
 	fr.entry = st.clone()
 	fr.blockPC = tTrue
+	ex.topFrame = fr
 	ex.stack = []*ssa.Function{fn}
 	ex.runBody(fr, st, tTrue)
 
@@ -234,8 +238,11 @@ func VerifyFunction(ld *Loaded, cs *ContractSet, fn *ssa.Function, ct *Contract)
 			g := ex.evalBool(e, env)
 			ex.obligeEnv(fr, "ensures", clauseName(e, i), pcRet, g, fn.Pos(), env)
 		}
-		if ct.AssignsSet {
+		if ct.AssignsSet && !ct.TrustFrame {
 			ex.checkAssigns(fr, ct, final, pcRet)
+		}
+		if ct.TrustFrame {
+			ex.assumedUsed["frame of "+key+" (assigns clause trusted, not checked)"] = true
 		}
 		ex.checkInvAllocs(fr, final, pcRet, 0, "return")
 		// reachability cover: the exit must be reachable under the assumptions
